@@ -3,6 +3,7 @@ package props
 import (
 	"fmt"
 	"math"
+	"strings"
 
 	"verif/harness/fw"
 	"verif/harness/gen"
@@ -380,6 +381,11 @@ func modelCheck(r *fw.Rec, tree jast.Node, doc interface{}, tag string, op judge
 	switch {
 	case res.Inconclusive:
 		r.Inconclusive(res.Detail)
+		return o, false
+	case res.OK && ev.FittingCallsRejected+ev.FittingCallsRejectedNonCanonical > 0 && o.Kind == "error" && (o.ErrClass == "argcount" || strings.HasPrefix(o.ErrClass, "argtype")):
+		// port and positional model agree on an argument error, but the call
+		// fits its signature: the property demands that it succeeds
+		r.Violation("signature:fitting-call-rejected:positional-assignment", "the arguments fit the declared signature (an in-order assignment exists in which an optional or context-substituted parameter that is not the last one takes no argument, or a variadic one several) but the call fails with "+o.String()+", which is what assigning the arguments to the parameters one by one from the left gives", map[string]any{"tag": tag})
 		return o, false
 	case res.OK:
 		r.Held()
